@@ -52,6 +52,7 @@ static std::vector<Marker> g_marks;
 
 static std::string H(const SimpleString& s) { return "\"" + vh_hex(std::string(s.asCharString())) + "\""; }
 static std::string H(const std::string& s) { return "\"" + vh_hex(s) + "\""; }
+static std::string g_pkg;     // package name given to the JUnit reporter for this run
 static void mark(const std::string& j) { Marker m; m.json = j; m.io = g_io.size(); g_marks.push_back(m); }
 
 class ProbeResult : public TestResult
@@ -59,7 +60,7 @@ class ProbeResult : public TestResult
 public:
     bool runIgnored;
     explicit ProbeResult(TestOutput& o) : TestResult(o), runIgnored(false) {}
-    void testsStarted() CPPUTEST_OVERRIDE { mark(std::string("\"op\":\"start\",\"ri\":") + (runIgnored ? "true" : "false")); TestResult::testsStarted(); }
+    void testsStarted() CPPUTEST_OVERRIDE { mark(std::string("\"op\":\"start\",\"ri\":") + (runIgnored ? "true" : "false") + ",\"pkg\":" + H(g_pkg)); TestResult::testsStarted(); }
     void testsEnded() CPPUTEST_OVERRIDE { mark("\"op\":\"end\""); TestResult::testsEnded(); }
     void currentGroupStarted(UtestShell* t) CPPUTEST_OVERRIDE { mark("\"op\":\"group\",\"g\":" + H(t->getGroup())); TestResult::currentGroupStarted(t); }
     void currentGroupEnded(UtestShell* t) CPPUTEST_OVERRIDE { mark("\"op\":\"endgroup\""); TestResult::currentGroupEnded(t); }
@@ -124,7 +125,7 @@ void ProbeResult::currentTestStarted(UtestShell* t)
 // ---------------------------------------------------------------- one execution
 static void run_execution(bool junit, const std::string& pkg, bool runIgnored, std::vector<Script>& scripts, FILE* out)
 {
-    g_io.clear(); g_marks.clear(); g_nfiles = 0;
+    g_io.clear(); g_marks.clear(); g_nfiles = 0; g_pkg = pkg;
     TestRegistry reg;
     TestFilter notZ("z");
     notZ.invertMatching();
